@@ -59,10 +59,15 @@ def vmErrPaths : Opcode → List ErrPath
   -- stays and plays the result); later (`ProcessEventReturn`): Pop, Pop(params), Push
   | .OP_FUNC => [⟨0, true, none⟩, ⟨0, true, none⟩]
   | .OP_LOAD_ARRAY_VAR => [⟨-3, false, some 0⟩]
-  -- Pop a; try { cast / NULL: peeks; loadTop } catch { if loadTop was not reached: Pop, skipField }
+  -- Pop a; try { group of listeners (const array, size > 1): skipField, loadStoreTop per member, Pop |
+  --              cast / NULL: peeks | loadTop } catch { if nothing of that was reached: Pop, skipField }
   | .OP_LOAD_FIELD_VAR =>
     [ ⟨-2, false, some fieldBytes⟩,                       -- cast error or NULL listener: Pop (a), Pop, skipField
-      ⟨-1 + loadTopErr.net, false, some fieldBytes⟩ ]     -- loadTop reached and throws: Pop (a) + loadTop's own repair
+      ⟨-1 + loadTopErr.net, false, some fieldBytes⟩,      -- loadTop reached and throws: Pop (a) + loadTop's own repair
+      ⟨-2, false, some fieldBytes⟩,                       -- group (6c30d63): a member's setter raises: Pop (a), inner catch pops the value
+      -- group: an element of the array is no listener (`listenerAt` throws, e.g. NIL::"b"::1): text variant 1
+      -- throws outside the inner try and keeps the value; variant 2 (notes/C02-suggested-fix-6.diff) pops it
+      ⟨if caseVariant .OP_LOAD_FIELD_VAR = 2 then -2 else -1, false, some fieldBytes⟩ ]
   | .OP_LOAD_GAME_VAR | .OP_LOAD_LEVEL_VAR | .OP_LOAD_LOCAL_VAR | .OP_LOAD_PARM_VAR | .OP_LOAD_GROUP_VAR => [loadTopErr]
   -- self NULL: Pop, skipField, throw
   | .OP_LOAD_SELF_VAR => [⟨-1, false, some fieldBytes⟩, loadTopErr]
@@ -109,8 +114,12 @@ def errPathOk (o : Opcode) (e : ErrPath) : Bool :=
 
 def errOk (o : Opcode) : Bool := (vmErrPaths o).all (errPathOk o)
 
-/-- every error path of the decode loop restores what the verifier assumes -/
+/-- every error path of the decode loop, as the source reads now, restores what the verifier assumes -/
 def errorPathsRepaired : Bool := Opcode.all.all errOk
+
+/-- opcodes with an error path that, in one of the known texts of the source, does *not* restore what the
+verifier assumes (notes/C02-findings.md F6: the group branch of `OP_LOAD_FIELD_VAR`) -/
+def errorPathSuspects : List Opcode := [.OP_LOAD_FIELD_VAR]
 
 /-- every `case` block and helper has a text this model knows -/
 def transcriptionCurrent : Bool :=
